@@ -253,7 +253,7 @@ impl Prop for C04 {
     fn explore(&self, ctx: &Ctx, findings: &Findings, ev: &mut Evidence) -> Result<(), String> {
         let q = ctx.tier == Tier::Quick;
         let positions: Vec<usize> = (0..20).collect();
-        let coords = witness_coords(ctx.seed.wrapping_add(4), if q { 2 } else { 4 }, false, &positions);
+        let coords = witness_coords(ctx.seed.wrapping_add(4), if q { 2 } else { 4 }, true, &positions);
         let cases = grid(&coords, if q { 1 } else { 2 });
         let cases: Vec<_> = if q { cases } else {
             cases.into_iter().filter(|(idx, _)| !(idx[4] != 0 && idx[5] != 0) || (idx[4] % 7 == 1 && idx[5] % 5 == 1)).collect()
